@@ -102,4 +102,3 @@ func ZZ_C16_glsl_namer_suffix_family() {
 	zz.Assert(r1 != r2 && r1 != r3 && r2 != r3, "two entities in one scope received the same spelling")
 	zz.Reach("end")
 }
-
